@@ -191,9 +191,8 @@ static void format_expected_string_value(Constraint *constraint, char *message, 
 }
 
 
-char *failure_message_for(Constraint *constraint, const char *actual_string, intptr_t actual_value) {
+static char *literal_failure_message_for(Constraint *constraint, const char *actual_string, intptr_t actual_value) {
     char actual_int_value_string[32];
-    const char *actual_value_as_string;
     char *message;
     size_t message_size = strlen(constraint_as_string_format) +
             strlen(expected_value_string_format) +
@@ -217,17 +216,11 @@ char *failure_message_for(Constraint *constraint, const char *actual_string, int
 
     message = (char *)malloc(message_size);
 
-    /* if the actual value expression contains '%' we want it to survive the final expansion with
-       arguments that happens in assert_true() */
-    actual_value_as_string = double_all_percent_signs_in(actual_string);
-
     /* expand the constraint with the actual value in string format... */
     snprintf(message, message_size - 1,
              constraint_as_string_format,
-             actual_value_as_string,
+             actual_string,
              constraint->name);
-
-    free((void*)actual_value_as_string);
 
     if (no_expected_value_in(constraint)) {
         return message;
@@ -252,14 +245,6 @@ char *failure_message_for(Constraint *constraint, const char *actual_string, int
         if (is_equal_to_string_constraint(constraint)) {
             strcat(message, "\n");
             format_expected_string_value(constraint, message, message_size);
-        }
-        /* The final string may have percent characters, so, since it is
-           later used in a (v)printf, we have to double them
-        */
-        if (next_percent_sign(message) != NULL) {
-            char *message_with_doubled_percent_signs = double_all_percent_signs_in(message);
-            free(message);
-            message = message_with_doubled_percent_signs;
         }
         return message;
     }
@@ -295,4 +280,13 @@ char *failure_message_for(Constraint *constraint, const char *actual_string, int
     }
 
     return message;
+}
+
+char *failure_message_for(Constraint *constraint, const char *actual_string, intptr_t actual_value) {
+    /* The message is later used as the format of a (v)printf without arguments, so every
+       percent sign in it, wherever it came from, has to be doubled exactly once */
+    char *message = literal_failure_message_for(constraint, actual_string, actual_value);
+    char *message_with_doubled_percent_signs = double_all_percent_signs_in(message);
+    free(message);
+    return message_with_doubled_percent_signs;
 }
